@@ -9,13 +9,17 @@ from checks import _spectral as sp
 PROPERTY = "C05"
 LEAN_MODULES = ["TapkeeVerif.Props.C05"]
 LEAN_EXES = ["model_c05"]
-REQUIRED_THEOREMS_FINAL = [
+REQUIRED_THEOREMS = [
     "TapkeeVerif.C05.center_eq_JAJ",
     "TapkeeVerif.C05.mdsPre_eq_gram",
     "TapkeeVerif.C05.mds_gram",
     "TapkeeVerif.C05.mds_exact_recovery",
+    "TapkeeVerif.C05.isomap_full_k_eq_mds_partial",
+    "TapkeeVerif.C05.randomized_exact_on_low_rank",
+    "TapkeeVerif.C05.mds_optimal",
+    "TapkeeVerif.C05.kpca_optimal",
+    "TapkeeVerif.C05.certificate_sound",
 ]
-REQUIRED_THEOREMS = []
 
 
 # ----------------------------------------------------------------------------- case text
